@@ -91,9 +91,10 @@ NOT_APPLICABLE = {}
 
 # clauses added after the first claim text was written (rounds 2 and 3); appended to the level text
 ADDENDA = {
- "C14": "R14.3 accepts only a comparison of the address values (not of *types.Address pointers) as inequality guard. R14.7 (shared with R10.4): no in-place arithmetic on stored balances - a reverted credit is taken back in full.",
+ "C04": "R04.11: the destination hub's notice status is translated through txStatus2EventM only, table and code paired through helper parameters.",
+ "C14": "R14.3 accepts only a comparison of the address values (not of *types.Address pointers) as inequality guard. R14.7 (shared with R10.4): no in-place arithmetic on stored balances - a reverted credit is taken back in full. R14.8: every success path of a ledger's Suiside has zeroed the account's balance (the EVM credited the beneficiary before).",
  "C01": "R01.5: the audit-only region posts AUDIT_* events only. R01.3 also forbids a goroutine to read a captured variable the spawner keeps writing (range variables are shared across iterations under the module's go directive). R01.6 (shared with R10.4): no in-place arithmetic on a stored balance, also through *big.Int parameters - the journal's previous balance is what a restarted node replays from. R01.7 (shared with R02.7): per-block accumulators of the transaction executor are re-created on every path through ApplyTransactions.",
- "C02": "R02.5: the read-modify-write windows of two interchain records never overlap (source == destination pairs). R02.6: on every path of ProcessIBTP's request branch the counter is advanced and the record written back (acceptance consumes the index). R02.5 also: a record loaded with getInterchain(k) is written back under the same key. R02.7: the per-block delivery map is re-created on every path through ApplyTransactions (a request is listed in the accepting block and in no other). R02.8 (shared with R05.8): in changeMultiTxStatus every write of the reporting child's entry is preceded by setFSM on its status. R02.1 is evaluated recursively through helpers that are themselves index guards.",
+ "C02": "R02.5: the read-modify-write windows of two interchain records never overlap (source == destination pairs). R02.6: on every path of ProcessIBTP's request branch the counter is advanced and the record written back (acceptance consumes the index). R02.5 also: a record loaded with getInterchain(k) is written back under the same key. R02.7: the per-block delivery map is re-created on every path through ApplyTransactions (a request is listed in the accepting block and in no other). R02.8 (shared with R05.8): in changeMultiTxStatus every write of the reporting child's entry is preceded by setFSM on its status. R02.1 is evaluated recursively through helpers that are themselves index guards. R02.9: the StatusChange a Begin* entry marshals has its PrevStatus assigned on every path (the zero value BEGIN raises no notify flag).",
  "C03": "R03.7: the verification groups cover the block; R03.8: no function reachable from CheckProof reads a VerifyPool container that is filled after construction (no memo of ledger data). R03.9: the digest signed by relay-chain validators covers source, destination, index, type, payload hash and status. R03.5 also: the delete that makes signers distinct is on the lookup's set under the lookup's key expression.",
  "C05": "R05.3 also decides bulk filing: all ids at once only behind the notify-source flag and under the shared source chain. R05.5: the timeout notification set is computed from the stored child statuses before setTimeoutRollback overwrites them. R05.6: the group id of a one-to-many transaction covers the source service and the declared children. R05.7: a test 'child status == SUCCESS' is never reachable after a bulk overwrite of the group's child statuses. R05.8 (shared with R02.8): a receipt reaches its child through the child's state machine.",
  "C06": "R06.9: a list rewritten element by element in a loop is carried from one iteration to the next (fold coherence). R06.10: expiry (getTimeoutIBTPsMap / setTimeoutRollback) runs after setTimeoutList, and additions are written back before removals. R06.11: when the contract overrides the timeout the registration consults the record (Height != MaxUint64); R06.12: the timeout is taken away on the source hub only. R06.13: T = 0 is recorded as MaxUint64 wherever the recorded height is what ids are listed under; registration under the recorded height is accepted as the second sound scheme (then R06.11 is mandatory). R06.14: setTimeoutList tests ibtp.Group only inside the request branch. R06.15: the batch answer files only requests as invalid.",
@@ -107,7 +108,7 @@ ADDENDA = {
  "C15": "R15.6: electorate snapshot; R15.7: the electorate update reaches every non-final status. R15.8: the availability sets of roles and dapps stay within the frozen reference.",
  "C16": "R16.7: every verdict of checkTargetAvailability is among the origins of the target error checkIBTP returns. R16.8: an AppchainManager entry that cascades PauseChainService does so on every successful path after the status change. R16.9: UnPauseChainService only on the approved branch of Manage or behind a comparison of the restored status with available / freezing. R16.5 also: the cached service record is allocated per event. R16.10: no pre-check table of the repository's governance objects admits an operation from logouting / forbidden.",
  "C17": "R17.6: index -> record key agreement; R17.7: every role predicate of RoleManager decides on each of its parameters. R17.8: no creating entry offers a direct self permission; R17.9: the permission kinds of every guarded entry stay within the frozen who-may-call table. R17.10: a Self / Admin permission on a loaded Service / Dapp is checked against the record's owner field. R17.11: replacing an id list deletes the reverse entries (admin -> chain) of the replaced ids.",
- "C18": "R18.2 pairs marking and appending both ways. R18.6: updateCommittedNonce stores the reported nonce unchanged. R18.7 (shared with R20.9): delete(batchedTxs, k) takes k from the pool entry of a committed hash.",
+ "C18": "R18.2 pairs marking and appending both ways. R18.6: updateCommittedNonce stores the reported nonce unchanged. R18.7 (shared with R20.9): delete(batchedTxs, k) takes k from the pool entry of a committed hash. R18.8: the commit nonce is advanced from a committed pool entry only behind commit nonce < new nonce.",
  "C19": "R19.4 requires the commit clamp to be exactly priorityIndex.size(); R19.5: key agreement of the pool indexes. R19.2 generalised: the map handed to a per-account structure is made in the same loop iteration. R19.5 also: an index that records its key time deletes entries under the recorded time. R19.6: a raw insertion into a timed index with a side table is reached only after the slot's old entry was deleted or found absent. R19.5 also: a key taken from the iteration of another index has that index's key class.",
  "C20": "R20.4: the applied index persisted by reportState is the one recorded for the reported height. R20.7: the raft snapshot payload carries n.lastExec, the height paired with appliedIndex. R20.3 also: SetBatchSeqNo takes over its argument on every path. R20.8: a failed range fetch of SyncCFTBlocks is not skipped. R20.9 (shared with R18.7): a batched mark leaves only with its transaction.",
 }
